@@ -60,7 +60,7 @@ func runC01(c *Ctx) {
 		}
 		c01Layout(c, dec, enc)
 	}
-	c01Alias(c)
+	c01Alias(c, "C01.R2")
 	c01FastPath(c)
 	c01EncodeReadsBody(c)
 	c01Narrowing(c)
@@ -408,7 +408,7 @@ func isGlobalCall(cc *ssa.CallCommon, name string) bool {
 // ---------------------------------------------------------------------------------------------
 // R2 aliasing
 
-func c01Alias(c *Ctx) {
+func c01Alias(c *Ctx, rule string) {
 	decodes, _ := decodeRoots(c)
 	scope := decodeScope(c, decodes)
 	var fns []*ssa.Function
@@ -467,9 +467,9 @@ func c01Alias(c *Ctx) {
 						name := codecName(fn) + "." + f
 						key := ord.next(fn, "store-"+f)
 						if why, ex := excl[name]; ex {
-							c.Pass("C01.R2", key, x.Pos(), "excluded: "+why)
+							c.Pass(rule, key, x.Pos(), "excluded: "+why)
 						} else {
-							c.Fail("C01.R2", key, x.Pos(), fmt.Sprintf("field %s.%s keeps a slice of the connection's read buffer (IoBuffer.Bytes() is a view): when the buffer is reused by the next read the decoded frame changes", shortName(t), f))
+							c.Fail(rule, key, x.Pos(), fmt.Sprintf("field %s.%s keeps a slice of the connection's read buffer (IoBuffer.Bytes() is a view): when the buffer is reused by the next read the decoded frame changes", shortName(t), f))
 						}
 					} else if al, ok := x.Addr.(*ssa.Alloc); ok {
 						// local variable: follow loads
@@ -499,13 +499,13 @@ func c01Alias(c *Ctx) {
 							for _, r2 := range refs(call) {
 								if s2, ok := r2.(*ssa.Store); ok && s2.Val == ssa.Value(call) {
 									if _, f, _, ok := fieldAddrInfo(s2.Addr); ok {
-										c.Fail("C01.R2", ord.next(fn, "wrap-"+f), s2.Pos(), "field "+f+" wraps (NewIoBufferBytes) a slice of the connection's read buffer without copying")
+										c.Fail(rule, ord.next(fn, "wrap-"+f), s2.Pos(), "field "+f+" wraps (NewIoBufferBytes) a slice of the connection's read buffer without copying")
 									}
 								}
 							}
 						}
 					case strings.HasSuffix(n, "variable.Set"):
-						c.Fail("C01.R2", ord.next(fn, "variable-set"), x.Pos(), "raw frame bytes published through variable.Set alias the connection's read buffer")
+						c.Fail(rule, ord.next(fn, "variable-set"), x.Pos(), "raw frame bytes published through variable.Set alias the connection's read buffer")
 					}
 				}
 			}
@@ -523,12 +523,12 @@ func c01Alias(c *Ctx) {
 			if taint[st.Val] {
 				return // already reported
 			}
-			c.Pass("C01.R2", ord.next(fn, "store-"+f), st.Pos(), f+" holds memory not derived by slicing the read buffer")
+			c.Pass(rule, ord.next(fn, "store-"+f), st.Pos(), f+" holds memory not derived by slicing the read buffer")
 		})
 	}
 	c.Extra["alias_sources"] = nsrc
 	if nsrc < 5 {
-		c.Unresolved("C01.R2", fmt.Sprintf("Bytes() sources on wire buffers (found %d)", nsrc))
+		c.Unresolved(rule, fmt.Sprintf("Bytes() sources on wire buffers (found %d)", nsrc))
 	}
 }
 
